@@ -408,7 +408,8 @@ def c16(run):
                 "free, equal Puzzles!MaxCliques / Cliques; non-trivial = graphs with >= 1 edge record")
     d = fresh_dir(run.prop, "gen")
     cases = []
-    pools = [["a", "b", "c"], ["a", "v_a", "c"], ["x1", "v_x1", "v_v_x1"], ["p", "q", "_r"]]
+    pools = [["a", "b", "c"], ["a", "v_a", "c"], ["x1", "v_x1", "v_v_x1"], ["p", "q", "_r"],
+             ["a", "a_a", "a_a_a"], ["a", "b_c", "a_b"], ["x_y", "y", "x"]]
     lists3 = list(graphs_upto(["A", "B", "C"], 4 if t else 3))
     if not t:
         lists3 = [g for g in lists3 if len(g) <= 2] + rnd.sample([g for g in lists3 if len(g) == 3], 60)
@@ -416,10 +417,12 @@ def c16(run):
         pool = rnd.choice(pools)
         ren = dict(zip(["A", "B", "C"], pool))
         cases.append([(ren[a], ren[b]) for a, b in g])
-    four = ["a", "b", "v_a", "d"]
-    pairs4 = [(a, b) for a in four for b in four if a != b]
-    n4 = 400 if t else 40
+    n4 = 400 if t else 110
+    # names whose concatenations with "_" / "v_" coincide (a_b + c = a + b_c ...), keyword-like names, digits
+    fours = [["a", "b", "v_a", "d"], ["a", "b_c", "a_b", "c"], ["x", "x_y", "y_z", "z"], ["n_1", "n_2", "n_1_2", "n"], ["and1", "or_", "_", "T"]]
     for _ in range(n4):
+        four = rnd.choice(fours)
+        pairs4 = [(a, b) for a in four for b in four if a != b]
         k = rnd.randint(1, 8)
         cases.append([rnd.choice(pairs4) for _ in range(k)])
     if t:
